@@ -188,6 +188,7 @@ func runConsumerScenario(t testing.TB, rec *vRec, sc *consScenario) {
 	for i := 0; i < cf.Interceptors; i++ {
 		config.Consumer.Interceptors = append(config.Consumer.Interceptors, &vConsInterceptor{rec: rec, chain: i + 1})
 	}
+	vUseDialer(config)
 	if err := config.Validate(); err != nil {
 		rec.Ev("skip", kv{"why": "config invalid: " + err.Error()})
 		return
